@@ -37,5 +37,5 @@ For each mutant k = 1..{n} write into /tmp/seeded-out/{pid}/m<k>/ :
 
 HOW TO BUILD/TEST in this sandbox (no network): in every shell call first run
   export GOFLAGS=-mod=mod GOPROXY=off GOSUMDB=off GOTOOLCHAIN=local GOWORK=off PATH=/opt/veriftools/go1.26.8/bin:$PATH
-then e.g. `cd /tmp/wt/{pid} && go build ./... && go test -vet=off -count=1 -timeout 25m ./...` (the whole suite takes about 3-4 minutes; the root package dominates). You MUST verify for each mutant: (a) `go build ./...` and `go vet`-free compile of tests (`go test -vet=off -count=1 -run '^$' ./...`), (b) the full existing suite passes with the mutant applied (run it; if a test is flaky, re-run that package once to see whether the failure is related), (c) your demo test fails with the mutant and passes without it. Only one mutant may be applied in the worktree at a time: after finishing each, save the diff, then `git -C /tmp/wt/{pid} checkout -- .` and remove your demo file from the worktree before starting the next.
+then e.g. `cd /tmp/wt/{pid} && go build ./... && go test -vet=off -count=1 -timeout 25m ./...` (the whole suite takes about 3-4 minutes; the root package dominates). You MUST verify for each mutant: (a) `go build ./...` and `go vet`-free compile of tests (`go test -vet=off -count=1 -run '^$' ./...`), (b) the full existing suite passes with the mutant applied (run it; if a test is flaky, re-run that package once to see whether the failure is related), (c) your demo test fails with the mutant and passes without it. NEVER use `git stash` (all scratch worktrees share one stash list with other people's work; a pop can hand you someone else's change): save your diff to a file with `git diff > file` and use `git checkout -- .` / `git apply file` instead. Only one mutant may be applied in the worktree at a time: after finishing each, save the diff, then `git -C /tmp/wt/{pid} checkout -- .` and remove your demo file from the worktree before starting the next.
 When done, leave the worktree clean (no mutant applied, no stray files) and reply with a short summary listing, per mutant, the file/function changed and the evidence (suite passed, demo failed with / passed without). If you could not make a mutant satisfy all conditions, say so plainly rather than delivering a weaker one.""")
